@@ -146,24 +146,7 @@ def r_C32de(root):
               side is an object reference: the two stores depend on nothing else (in particular not on the attribute
               already being a reference: a later assignment may carry the RREL)."""
     L = "textx/lang.py"; out = []; inst = 0
-    pn = find_i(root, M, "parse_tree_to_objgraph.process_node"); fi = sem.info(pn)
-    ctor = [c for c in calls(pn, own=True) if callee_name(c) == "ObjCrossRef"]
-    if not ctor: raise AnalysisError("process_node: ObjCrossRef construction not found")
-    for c in ctor:
-        kw = {k.arg: k.value for k in c.keywords if k.arg}
-        pos = [a.arg for a in find(load(root, M), "ObjCrossRef.__init__").args.args[1:]]
-        for i_, a in enumerate(c.args):
-            if i_ < len(pos): kw[pos[i_]] = a
-        bases = set(); bad = None
-        for f in ("scope_provider", "match_rule_name", "cls"):
-            inst += 1
-            if f not in kw: bad = bad or (f, "missing"); continue
-            v = fi.expand(kw[f], at=c)
-            if isinstance(v, ast.Attribute) and v.attr == f: bases.add(ast.unparse(v.value))
-            else: bad = bad or (f, ast.unparse(v)[:60])
-        if bad is None and len(bases) != 1: bad = ("scope_provider / match_rule_name / cls", "taken from different attribute descriptions %s" % sorted(bases))
-        ob("C32", "C32.d", M, "parse_tree_to_objgraph.process_node", "ObjCrossRef fields from one attribute description (%s)" % sorted(bases), bad is None)
-        if bad: out.append(Finding("C32", "C32.d", M, "parse_tree_to_objgraph.process_node", "%s=%s" % bad, "the queued reference does not carry the %s of its attribute unchanged (%s): a provider registered as an RREL string cannot deduce the name delimiter / the reference resolves with another provider than the one written at it" % (bad[0], bad[1]), witness="register_scope_providers({'*.*': 'a.b'}) and a += reference list without RREL in the grammar"))
+    # C32.d (fields of a queued reference) is decided by evaluation: C32.f (sa/rules/cpn.py)
     va = find_i(root, L, "TextXVisitor.visit_assignment"); fia = sem.info(va)
     stores = [n for n in own_nodes(va) if isinstance(n, ast.Assign) and any(isinstance(tg, ast.Attribute) and tg.attr in ("scope_provider", "match_rule_name") for tg in n.targets)]
     if len(stores) < 2: raise AnalysisError("visit_assignment: stores of scope_provider / match_rule_name on the attribute not found")
